@@ -65,6 +65,12 @@ def render_val_item(src, it, items, consts):
             name = "K%d" % (len(consts) + 1)
             consts.append("const %s: %s = %s;" % (name, cty, lit))
             return "%s = %s" % (w, name)
+        if it["sp"] == "cast":
+            # a constant of another numeric type, cast to the inner type: the bound expression ends in `as T`
+            name = "K%d" % (len(consts) + 1)
+            wide = "f32" if fam == "float" else "i16"
+            consts.append("const %s: %s = %s;" % (name, wide, lit))
+            return "%s = %s as %s" % (w, name, cty)
         return "%s = %s" % (w, lit)
     if w in ("finite", "not_empty", "NotEmpty"):
         return w
@@ -74,7 +80,7 @@ def render_val_item(src, it, items, consts):
         if it["sp"] == "expr":
             consts.append('static RE1: ::std::sync::LazyLock<::regex::Regex> = ::std::sync::LazyLock::new(|| ::regex::Regex::new("^[a-z]+$").unwrap());')
             return "regex = RE1"
-        return 'regex = "%s"' % ("(" if it["fn"] == "re_invalid" else "^[a-z]+$")
+        return 'regex = "%s"' % {"re_invalid": "(", "re_toobig": "^\\\\w{2000}$"}.get(it["fn"], "^[a-z]+$")
     if w == "with":
         if "CErr" not in "".join(items):
             items.append(custom_items(src))
